@@ -12,6 +12,8 @@ void runEpisode(const nlohmann::json& ep)
         runObj(ep);
     else if (comp == "st")
         runSt(ep);
+    else if (comp == "val")
+        runVal(ep);
     else
     {
         Out o;
